@@ -67,7 +67,7 @@ def _walk_shallow(stmts):
         if isinstance(node, (ast.FunctionDef, ast.AsyncFunctionDef,
                              ast.ClassDef, ast.Lambda)):
             continue
-        for field in ('body', 'orelse', 'finalbody', 'handlers'):
+        for field in ('finalbody', 'orelse', 'handlers', 'body'):
             sub = getattr(node, field, None)
             if isinstance(sub, list):
                 stack.extend(reversed(sub))
